@@ -127,6 +127,15 @@ def gen_strings(tier):
                     yield from emit(("fn", fn, (op, a, b)))
                     yield from emit((op, ("fn", fn, a), b))
                     yield from emit((op, b, ("fn", fn, a)))
+    # powers with the exponents an optimiser likes to special-case (sqrt, reciprocal, square, unit, zero), in every
+    # operator context on either side
+    for base in ("Tgas", "(Tgas/3d2)", "2d0", "n(idx_H)", "foo"):
+        for ex in ("0.5", "0.5d0", "(-0.5)", "(-0.5d0)", "1", "(-1)", "2", "(-2)", "0", "1.0d0", "3", "(1d0/2d0)"):
+            pw = f"{base}**{ex}"
+            for s_ in (pw, f"2d0/{pw}", f"2d0*{pw}", f"{pw}/Tgas", f"Tgas-{pw}", f"{pw}-Tgas", f"3/{pw}/foo", f"exp(-{pw})", f"({pw})**2", f"2d0**{pw}" if base != "2d0" else pw):
+                if s_ not in seen:
+                    seen.add(s_)
+                    yield s_
     # abundance references beyond one-letter species
     for lf in IDX_LEAVES:
         yield lf
